@@ -33,7 +33,8 @@ const (
 )
 
 type decodeCase struct {
-	Mode    string   `json:"mode"` // block-typed | block-auto | column | lcraw | colraw | message | compressed
+	Mode    string   `json:"mode"`            // block-typed | block-auto | column | lcraw | colraw | message | compressed
+	Prime   string   `json:"prime,omitempty"` // hex of a valid block decoded into the same targets first (reuse)
 	Rev     int      `json:"rev"`
 	Targets []string `json:"targets,omitempty"` // kind keys
 	Names   []string `json:"names,omitempty"`
@@ -180,6 +181,14 @@ func decodeAndWalk(c decodeCase, data []byte) (*verdict, error) {
 			res = append(res, proto.ResultColumn{Name: c.Names[i], Data: k.New().Column()})
 		}
 		var b proto.Block
+		if c.Prime != "" {
+			// Targets are reused between blocks: decode a valid block into them first.
+			pb, _ := hex.DecodeString(c.Prime)
+			var b0 proto.Block
+			if err := b0.DecodeBlock(readerOf(pb), c.Rev, res); err != nil {
+				return &verdict{"harness", "priming block does not decode: " + err.Error()}, nil
+			}
+		}
 		if err := b.DecodeBlock(r, c.Rev, res); err != nil {
 			return nil, err
 		}
@@ -318,7 +327,7 @@ func TestC06BlockMutations(t *testing.T) {
 		rapid.Check(t, func(rt *rapid.T) {
 			cols, rows := drawBlock(rt, 3)
 			rev := rapid.SampledFrom(blockRevs).Draw(rt, "rev")
-			e := &ref.Enc{}
+			e := &ref.Enc{LCBump: rapid.IntRange(0, 3).Draw(rt, "lc-key-width-bump")}
 			ref.EncodeBlock(e, rev, refBlock(cols, ref.BlockInfo{BucketNum: -1}))
 			// a second block to splice from
 			ocols, _ := drawBlock(rt, 2)
@@ -349,6 +358,17 @@ func TestC06BlockMutations(t *testing.T) {
 				c.Mode = "block-typed"
 				for _, col := range cols {
 					c.Targets = append(c.Targets, col.Kind.Key())
+				}
+				if mode == 1 {
+					// reused targets: a valid block of the same schema (other rows) is decoded first
+					var prime []colSpec
+					n := rapid.IntRange(1, 4).Draw(rt, "prime-rows")
+					for _, col := range cols {
+						prime = append(prime, colSpec{Name: col.Name, Kind: col.Kind, Rows: gen.DrawRows(rt, col.Kind, n)})
+					}
+					pe := &ref.Enc{NoMap: true}
+					ref.EncodeBlock(pe, rev, refBlock(prime, ref.BlockInfo{}))
+					c.Prime = hex.EncodeToString(pe.B)
 				}
 			case 2:
 				c.Mode = "block-typed"
@@ -381,7 +401,7 @@ func TestC06ColumnMutations(t *testing.T) {
 			}
 			rows := gen.RowCount().Draw(rt, "rows")
 			vals := gen.DrawRows(rt, k, rows)
-			e := &ref.Enc{}
+			e := &ref.Enc{LCBump: rapid.IntRange(0, 3).Draw(rt, "lc-key-width-bump")}
 			if rows > 0 {
 				ref.EncodeState(e, k.T)
 			}
